@@ -258,9 +258,17 @@ def run_process(perv, sc):
         return {"outcome": "raise", "exc": type(e).__name__, "model": None, "cond": cond, "msg": str(e)[:200]}
 
 
+def own_weight(x, basis, mix):
+    """mass fraction of the first component from a fraction in the given basis (Composition.tla: ToWeightP)"""
+    if str(basis) != "molar":
+        return float(x)
+    m1, m2 = mix.first_component.molecular_weight, mix.second_component.molecular_weight
+    return m1 * x / (m1 * x + m2 * (1.0 - x))
+
+
 def start_line(sc, res):
     mix = sc["mix"]
-    x0w = pv.Composition(p=sc["x0"], type=sc["basis"]).to_weight(mix).p
+    x0w = own_weight(sc["x0"], sc["basis"], mix)      # the specification's formula, not the library's converter
     prog = sc["prog"]
     cs = sc["curves"]
     return {"ev": "Start", "kind": sc["kind"], "iso": sc["kind"].endswith("_iso"), "ideal": sc["kind"].startswith("ideal"),
@@ -573,7 +581,7 @@ def nicurve_trace(rng):
     n = rng.randrange(2, 7)
     P0 = None
     dx = rng.uniform(0.005, 0.04)
-    x0w = c0.to_weight(mix).p
+    x0w = own_weight(x0, basis, mix)
     r = rng.random()
     if r < 0.15:        # the grid ends next to 1: the look-ahead point of the last iteration is just inside or just outside
         dx = (1.0 - x0w + rng.choice([-1, 1]) * rng.choice([0.0, 1e-12, 1e-3])) / (n + 1 + rng.choice([0, 0, -1]))
@@ -598,7 +606,7 @@ def nicurve_trace(rng):
         return [{"ev": "NIStart", "outcome": "raise", "exc": type(e).__name__, "hasFits": False, "x0w": F(x0w), "dx": F(dx), "N": n}]
     fo = fit_oracle(sc, membrane, model_kind="curve")
     tr = [{"ev": "NIStart", "outcome": "return", "hasFits": True, "dx": F(dx), "prec": F(prec), "fitopts": str(sc["fitopts"]), "single": fo["single"], "fits_orc": fo["orc"], "Ea": fo["Ea"],
-           "T": F(T), "Tcurve": F(cs.diffusion_curves[0].feed_temperature), "x0w": F(c0.to_weight(mix).p), "basis": basis,
+           "T": F(T), "Tcurve": F(cs.diffusion_curves[0].feed_temperature), "x0w": F(x0w), "basis": basis,
            "N": n, "P0given": P0 is not None, "model": model, "mode": mode, "mixname": mix.name,
            "P0kg": [0.0, 0.0] if P0 is None else [F(P0[0].convert(KG, mix.first_component).value), F(P0[1].convert(KG, mix.second_component).value)]}]
     for j in range(len(d.feed_compositions)):
